@@ -8,6 +8,7 @@ pub mod builder_oracles;
 pub mod c05;
 pub mod c06;
 pub mod c07;
+pub mod c08;
 pub mod c09;
 pub mod c10;
 pub mod c11;
@@ -26,6 +27,7 @@ pub fn run(prop: &str, tier: Tier, seed: u64) -> Option<i32> {
         "C03" => c03::run(tier, seed),
         "C05" => c05::run(tier, seed),
         "C06" => c06::run(tier, seed),
+        "C08" => c08::run(tier, seed),
         "C09" => c09::run(tier, seed),
         "C10" => c10::run(tier, seed),
         "C18" => c18::run(tier, seed),
@@ -46,6 +48,7 @@ pub fn scenario(prop: &str, name: &str, tier: Tier) -> Option<BoxedScenario> {
         "C03" => c03::scenario(name, tier),
         "C05" => c05::scenario(name, tier),
         "C06" => c06::scenario(name, tier),
+        "C08" => c08::scenario(name, tier),
         "C09" => c09::scenario(name, tier),
         "C10" => c10::scenario(name, tier),
         "C18" => c18::scenario(name, tier),
